@@ -65,17 +65,18 @@ type AdapterPolicy struct {
 }
 
 type ServerStep struct {
-	Status     int  `json:"status,omitempty"`
-	RetryAfter int  `json:"retry_after,omitempty"` // seconds; 0 = header absent
-	ConnErr    bool `json:"conn_err,omitempty"`
-	Delay      D    `json:"delay,omitempty"`
-	BodySize   int  `json:"body_size,omitempty"`
-	Chunks     int  `json:"chunks,omitempty"`
-	ChunkDelay D    `json:"chunk_delay,omitempty"`
-	Code       int  `json:"code,omitempty"`        // gRPC status code (0 = OK)
-	PlainErr   bool `json:"plain_err,omitempty"`   // gRPC: a non-status error
-	LateUpload bool `json:"late_upload,omitempty"` // HTTP: the server answers before the request body has been uploaded; the transport keeps reading the body after RoundTrip returned, as net/http's may
-	Wrapped    bool `json:"wrapped,omitempty"`     // gRPC: the status error arrives wrapped (fmt.Errorf with %w), as a handler or an inner interceptor annotating its errors returns it
+	Status         int  `json:"status,omitempty"`
+	RetryAfter     int  `json:"retry_after,omitempty"` // seconds; 0 = header absent
+	ConnErr        bool `json:"conn_err,omitempty"`
+	ConnErrTimeout bool `json:"conn_err_timeout,omitempty"` // the connection error is a per-try timeout of the transport (errors.Is context.DeadlineExceeded, like http.Client.Timeout's) while nobody's context has expired
+	Delay          D    `json:"delay,omitempty"`
+	BodySize       int  `json:"body_size,omitempty"`
+	Chunks         int  `json:"chunks,omitempty"`
+	ChunkDelay     D    `json:"chunk_delay,omitempty"`
+	Code           int  `json:"code,omitempty"`        // gRPC status code (0 = OK)
+	PlainErr       bool `json:"plain_err,omitempty"`   // gRPC: a non-status error
+	LateUpload     bool `json:"late_upload,omitempty"` // HTTP: the server answers before the request body has been uploaded; the transport keeps reading the body after RoundTrip returned, as net/http's may
+	Wrapped        bool `json:"wrapped,omitempty"`     // gRPC: the status error arrives wrapped (fmt.Errorf with %w), as a handler or an inner interceptor annotating its errors returns it
 }
 
 type AdapterSpec struct {
@@ -312,6 +313,19 @@ func (connError) Temporary() bool { return true }
 
 var errConn error = connError{}
 
+// tryTimeoutError: what a transport's own per-try time limit produces; like net/http's timeout error it
+// matches context.DeadlineExceeded although neither the request's nor the executor's context has expired.
+type tryTimeoutError struct{}
+
+func (tryTimeoutError) Error() string {
+	return "simulated transport: timeout awaiting response headers"
+}
+func (tryTimeoutError) Timeout() bool        { return true }
+func (tryTimeoutError) Temporary() bool      { return true }
+func (tryTimeoutError) Is(target error) bool { return target == context.DeadlineExceeded }
+
+var errTryTimeout error = tryTimeoutError{}
+
 type simTransport struct{ w *adapterWorld }
 
 func (t *simTransport) RoundTrip(req *http.Request) (*http.Response, error) {
@@ -389,8 +403,12 @@ func (t *simTransport) RoundTrip(req *http.Request) (*http.Response, error) {
 		return nil, req.Context().Err()
 	}
 	if st.ConnErr {
-		w.log.add(Event{Kind: EvAdapter, L: AdAttemptEnd, A: int64(n), Err: errConn})
-		return nil, errConn
+		err := errConn
+		if st.ConnErrTimeout {
+			err = errTryTimeout
+		}
+		w.log.add(Event{Kind: EvAdapter, L: AdAttemptEnd, A: int64(n), Err: err})
+		return nil, err
 	}
 	body := &simBody{w: w, attempt: n, ctx: req.Context(), data: patternBytes(st.BodySize), delay: st.ChunkDelay}
 	if st.Chunks > 1 {
